@@ -169,6 +169,10 @@ def check(ctx):
                         "build() is called on the builder that received the root certificates", [GC, "build-other-builder"])
 
     R4 = ctx.rule("R4", "Endpoint.root_certificates = --root-cert ++ endpoint.root_certificates ++ global.root_certificates")
+    # the global list is the EFFECTIVE one: when [global] tables of included files are merged, root_certificates is taken from the
+    # same-named option and a later-included value overrides an earlier one (shared with C14.R2)
+    from .c14 import merge_pairing
+    merge_pairing(ctx, R4, only=("root_certificates",))
     tg = prog.must_body("acmed::config::Endpoint::to_generic")
     news = tg.calls_to("acmed::endpoint::Endpoint::new")
     ctx.floor(R4, "Endpoint::new call in config::Endpoint::to_generic", len(news), 1)
